@@ -288,6 +288,9 @@ func (w *World) Build(c Config) *WF {
 				w.loseCurrentLease()
 				return errors.New("custom delete failed " + out)
 			}
+			if strings.HasPrefix(out, "e:") {
+				return userErr("delete", strings.TrimPrefix(out, "e:"))
+			}
 			if strings.HasPrefix(out, "e") || out == "x" {
 				return errors.New("custom delete failed " + out)
 			}
@@ -387,12 +390,31 @@ func (w *World) runOutcome(ctx context.Context, kind string, status int, r *work
 			// a failing function may well return a status next to its error ("return StatusFailed, err"): the status of a
 			// failed invocation means nothing and must not be acted on. The first declared destination is returned, so that
 			// code which does act on it produces a LEGAL-looking transition.
-			return St(w.declaredDest(kind, status)), errors.New("err-" + parts[1])
+			return St(w.declaredDest(kind, status)), userErr(kind, parts[1])
 		default:
 			*r.Object = MkObj(-31337)
 			return St(w.declaredDest(kind, status)), errors.New("err-x")
 		}
 	}
+}
+
+// userErr: the error a failing user function returns. The text identifies the error for the error counter (k); its shape varies,
+// because what the library does with a user's error must not depend on it:
+//   k=2  a long message (a wrapped stack of causes, several hundred bytes);
+//   k=3  (step and timer functions) an error that wraps context.Canceled - the function called something with a context of its
+//        own that was cancelled; the role is still held, so this is a failed handling like any other;
+//   k=1  (hooks and the delete function) an error that wraps workflow.ErrRecordNotFound - the hook looked something up that is not
+//        there yet and wants to be retried.
+func userErr(kind, k string) error {
+	switch {
+	case k == "2":
+		return errors.New("err-2 " + strings.Repeat("caused by: upstream service replied 503; ", 10))
+	case k == "3" && (kind == "step" || kind == "timer"):
+		return fmt.Errorf("err-3: %w", context.Canceled)
+	case k == "1" && (kind == "hook" || kind == "delete"):
+		return fmt.Errorf("err-1: %w", workflow.ErrRecordNotFound)
+	}
+	return errors.New("err-" + k)
 }
 
 // declaredDest: the first destination declared for (kind, status), 0 when there is none
@@ -440,7 +462,7 @@ func (w *World) timerFn(status int) workflow.TimerFunc[Obj, St] {
 		case "ze":
 			return time.Time{}, errors.New("err-ze")
 		case "e":
-			return now.Add(time.Hour), errors.New("err-" + parts[1])
+			return now.Add(time.Hour), userErr("timer", parts[1])
 		default:
 			return time.Time{}, errors.New("err-x")
 		}
@@ -470,6 +492,9 @@ func (w *World) hookFn(rs int) workflow.RunStateChangeHookFunc[Obj, St] {
 		if strings.HasPrefix(out, "l") { // the role is lost while the hook runs; the hook reports an error
 			w.loseCurrentLease()
 			return errors.New("hook failed " + out)
+		}
+		if strings.HasPrefix(out, "e:") {
+			return userErr("hook", strings.TrimPrefix(out, "e:"))
 		}
 		if strings.HasPrefix(out, "e") || out == "x" {
 			return errors.New("hook failed " + out)
